@@ -254,7 +254,14 @@ def variant_swapind(src, fn):
     return apply_edits(src, edits)
 
 
-KINDS = {"swapind": variant_swapind, "swapif": variant_swapif, "rename": variant_rename, "flipcmp": variant_flipcmp, "noise": variant_noise, "noise2": variant_noise2}
+def variant_noise3(src, fn):
+    """like noise2, but the inserted statement contains a call (`_fuzz_noise = str(0)`): to the CFG it may raise, as a
+    logging call added to a try body would"""
+    v = variant_noise2(src, fn)
+    return None if v is None else v.replace("_fuzz_noise = None\n", "_fuzz_noise = str(0)\n")
+
+
+KINDS = {"noise3": variant_noise3, "swapind": variant_swapind, "swapif": variant_swapif, "rename": variant_rename, "flipcmp": variant_flipcmp, "noise": variant_noise, "noise2": variant_noise2}
 
 
 def job(args):
